@@ -38,7 +38,7 @@ theorem homog_core (il R y a δ : ℝ) (hil : 0 ≤ il) (hR : 0 < R) (hy : 0 ≤
   · exact mul_nonneg hil (by linarith)
   · nlinarith
 
-theorem sqrt_lambda_le {lam : ℝ} (h0 : 0 < lam) (h : lam ≤ 8 / 225) : (lam / 8.0) ^ (0.5:ℝ) ≤ 1 / 15 := by
+theorem sqrt_lambda_le {lam : ℝ} (h0 : 0 < lam) (h : lam ≤ 8 / 225) : (lam / 8) ^ (0.5:ℝ) ≤ 1 / 15 := by
   have h05 : (0.5:ℝ) = 1 / 2 := by norm_num
   rw [h05, ← Real.sqrt_eq_rpow]
   rw [show (1:ℝ) / 15 = Real.sqrt ((1 / 15) ^ 2) from (Real.sqrt_sq (by norm_num)).symm]
@@ -46,19 +46,19 @@ theorem sqrt_lambda_le {lam : ℝ} (h0 : 0 < lam) (h : lam ≤ 8 / 225) : (lam /
   norm_num
   linarith
 
-/-- the Talmon-corrected homogeneous form (the expression both branches of the generated function share) -/
-noncomputable def hoBase (vls Dp d eps nu rhol rhos Cvs : ℝ) : ℝ := homogeneous.Erhg vls Dp d eps nu rhol rhos Cvs false
+/-- the Talmon-corrected homogeneous form (the expression both branches of the generated function share; `talmon` of `Lemmas/Canon`) -/
+noncomputable def hoBase (vls Dp d eps nu rhol rhos Cvs : ℝ) : ℝ := talmon vls Dp d eps nu rhol rhos Cvs
 
 theorem InE.hoBase_bounds {vls Dp d eps nu rhol rhos Cvs : ℝ} (h : InE vls Dp d eps nu rhol rhos Cvs) :
     0 ≤ hoBase vls Dp d eps nu rhol rhos Cvs ∧ hoBase vls Dp d eps nu rhol rhos Cvs ≤ homogeneous.fluid_head_loss vls Dp eps nu rhol := by
-  unfold hoBase homogeneous.Erhg
-  simp only [Bool.not_false, Bool.true_or, if_true, Transc.rpow, Transc.npow, Transc.log, pyMin_eq_min, sci_one]
+  unfold hoBase talmon
+  simp only [pyMin_eq_min]
   have hlam := swamee_jain_pos (homogeneous.pipe_reynolds_number vls Dp nu) Dp eps
     (reynolds_pos vls Dp nu h.vls_pos h.Dp_pos h.nu_pos) h.Dp_pos h.eps_pos.le h.rough_le
   have hlam8 := h.lambda_le
   set lam := homogeneous.swamee_jain_ff (homogeneous.pipe_reynolds_number vls Dp nu) Dp eps
-  have hs : (lam / 8.0) ^ (0.5:ℝ) ≤ 1 / 15 := sqrt_lambda_le hlam hlam8
-  have hs0 : 0 < (lam / 8.0) ^ (0.5:ℝ) := Real.rpow_pos_of_pos (by positivity) _
+  have hs : (lam / 8) ^ (0.5:ℝ) ≤ 1 / 15 := sqrt_lambda_le hlam hlam8
+  have hs0 : 0 < (lam / 8) ^ (0.5:ℝ) := Real.rpow_pos_of_pos (by positivity) _
   have hR : 0 < (rhos - rhol) / rhol * Cvs := mul_pos h.Rsd_pos h.Cv_pos
   have hratio : (rhol + Cvs * (rhos - rhol)) / rhol = 1 + (rhos - rhol) / rhol * Cvs := by
     have := h.rhol_pos; field_simp
@@ -68,15 +68,15 @@ theorem InE.hoBase_bounds {vls Dp d eps nu rhol rhos Cvs : ℝ} (h : InE vls Dp 
     rw [hratio, Real.exp_log (by linarith)]
   have hAk : (Cst.homogeneous_Acv : ℝ) / (Cst.homogeneous_kvK : ℝ) = 7.5 := by
     unfold Cst.homogeneous_Acv Cst.homogeneous_kvK; norm_num
-  have hδ0 : 0 < min (11.6 * nu / ((lam / 8.0) ^ (0.5:ℝ) * vls * d)) 1 := by
+  have hδ0 : 0 < min (11.6 * nu / ((lam / 8) ^ (0.5:ℝ) * vls * d)) 1 := by
     have := h.nu_pos; have := h.vls_pos; have := h.d_pos
     exact lt_min (by positivity) (by norm_num)
   have hcore := homog_core (homogeneous.fluid_head_loss vls Dp eps nu rhol) ((rhos - rhol) / rhol * Cvs)
-    (Real.log ((rhol + Cvs * (rhos - rhol)) / rhol)) (7.5 * (lam / 8.0) ^ (0.5:ℝ))
-    (min (11.6 * nu / ((lam / 8.0) ^ (0.5:ℝ) * vls * d)) 1) h.il_pos.le hR hy hexp (by positivity) (by nlinarith) hδ0 (min_le_right _ _)
+    (Real.log ((rhol + Cvs * (rhos - rhol)) / rhol)) (7.5 * (lam / 8) ^ (0.5:ℝ))
+    (min (11.6 * nu / ((lam / 8) ^ (0.5:ℝ) * vls * d)) 1) h.il_pos.le hR hy hexp (by positivity) (by nlinarith) hδ0 (min_le_right _ _)
   simp only at hcore
-  have e : (Cst.homogeneous_Acv : ℝ) / (Cst.homogeneous_kvK : ℝ) * Real.log ((rhol + Cvs * (rhos - rhol)) / rhol) * (lam / 8.0) ^ (0.5:ℝ) + 1
-      = 7.5 * (lam / 8.0) ^ (0.5:ℝ) * Real.log ((rhol + Cvs * (rhos - rhol)) / rhol) + 1 := by rw [hAk]; ring
+  have e : (Cst.homogeneous_Acv : ℝ) / (Cst.homogeneous_kvK : ℝ) * Real.log ((rhol + Cvs * (rhos - rhol)) / rhol) * (lam / 8) ^ (0.5:ℝ) + 1
+      = 7.5 * (lam / 8) ^ (0.5:ℝ) * Real.log ((rhol + Cvs * (rhos - rhol)) / rhol) + 1 := by rw [hAk]; ring
   rw [e]
   exact hcore
 
@@ -88,30 +88,20 @@ theorem InE.ho_bounds {vls Dp d eps nu rhol rhos Cvs : ℝ} (h : InE vls Dp d ep
       homogeneous.Erhg vls Dp d eps nu rhol rhos Cvs sf ≤ homogeneous.fluid_head_loss vls Dp eps nu rhol) := by
   have hb := h.hoBase_bounds
   unfold hoBase at hb
-  have hbase : ∀ b : Bool, (b = false ∨ d / ((Cst.particle_ratio : ℝ) * Dp) < 1) →
-      homogeneous.Erhg vls Dp d eps nu rhol rhos Cvs b = homogeneous.Erhg vls Dp d eps nu rhol rhos Cvs false := by
-    intro b hb'
-    unfold homogeneous.Erhg
-    rcases hb' with rfl | hf
-    · rfl
-    · simp [sci_one, hf]
-  constructor
-  · by_cases hc : sf = false ∨ d / ((Cst.particle_ratio : ℝ) * Dp) < 1
-    · rw [hbase sf hc]; exact hb.1
-    · push_neg at hc
-      have hsf : sf = true := by cases sf <;> simp_all
-      subst hsf
-      have hf1 : 1 ≤ d / ((Cst.particle_ratio : ℝ) * Dp) := hc.2
-      have e : homogeneous.Erhg vls Dp d eps nu rhol rhos Cvs true =
-          (homogeneous.Erhg vls Dp d eps nu rhol rhos Cvs false + (d / ((Cst.particle_ratio : ℝ) * Dp) - 1) * (Cst.musf : ℝ)) / (d / ((Cst.particle_ratio : ℝ) * Dp)) := by
-        unfold homogeneous.Erhg
-        have : ¬ d / ((Cst.particle_ratio : ℝ) * Dp) < 1 := not_lt.2 hf1
-        simp only [sci_one, decide_eq_true_eq, this, Bool.not_true, Bool.false_or, decide_false, Bool.false_eq_true, if_false,
-          Bool.not_false, Bool.true_or, if_true]
-      rw [e]
-      have hm : (0:ℝ) < Cst.musf := by unfold Cst.musf; norm_num
-      apply div_nonneg _ (by linarith)
+  rw [homo_Erhg_canon]
+  by_cases hc : ((!sf) || decide (d / ((Cst.particle_ratio : ℝ) * Dp) < 1)) = true
+  · rw [if_pos hc]
+    exact ⟨hb.1, fun _ => hb.2⟩
+  · rw [if_neg hc]
+    have hc' : sf = true ∧ ¬ d / ((Cst.particle_ratio : ℝ) * Dp) < 1 := by
+      cases sf <;> simp_all
+    have hf1 : 1 ≤ d / ((Cst.particle_ratio : ℝ) * Dp) := not_lt.1 hc'.2
+    have hm : (0:ℝ) < Cst.musf := by unfold Cst.musf; norm_num
+    constructor
+    · apply div_nonneg _ (by linarith)
       have : 0 ≤ (d / ((Cst.particle_ratio : ℝ) * Dp) - 1) * (Cst.musf : ℝ) := mul_nonneg (by linarith) hm.le
       linarith [hb.1]
-  · intro hc
-    rw [hbase sf hc]; exact hb.2
+    · intro h'
+      rcases h' with h' | h'
+      · rw [hc'.1] at h'; exact absurd h' (by simp)
+      · exact absurd h' hc'.2
